@@ -213,14 +213,15 @@ Definition labels_ok (l : list Z) : Prop :=
 
 Definition sver_arg1 (x y pcpu vcpu : Z) : Z := (256 * x + y) * 65536 + 256 * pcpu + vcpu.
 
-(* legacy: arg2 = (100 * major + minor) << 16 | buffer size; data = name, NUL *)
-Definition encode_sver_legacy (x y pcpu vcpu major minor buf date : Z) (name : list Z) : reply :=
-  mkReply (sver_arg1 x y pcpu vcpu) ((100 * major + minor) * 65536 + buf) date (name ++ [0]).
+(* [pad] = the number of NUL bytes after the last string (SC&MP sends one; none or several are accepted) *)
+(* legacy: arg2 = (100 * major + minor) << 16 | buffer size; data = name, NULs *)
+Definition encode_sver_legacy (x y pcpu vcpu major minor buf date : Z) (name : list Z) (pad : nat) : reply :=
+  mkReply (sver_arg1 x y pcpu vcpu) ((100 * major + minor) * 65536 + buf) date (name ++ repeat 0 pad).
 
-(* semantic versions: arg2 = 0xffff << 16 | buffer size; data = name, NUL, "major.minor.patch" labels, NUL *)
-Definition encode_sver_semver (x y pcpu vcpu buf date : Z) (name d1 d2 d3 labels : list Z) : reply :=
+(* semantic versions: arg2 = 0xffff << 16 | buffer size; data = name, NUL, "major.minor.patch" labels, NULs *)
+Definition encode_sver_semver (x y pcpu vcpu buf date : Z) (name d1 d2 d3 labels : list Z) (pad : nat) : reply :=
   mkReply (sver_arg1 x y pcpu vcpu) (65535 * 65536 + buf) date
-          (name ++ 0 :: (d1 ++ 46 :: d2 ++ 46 :: d3 ++ labels) ++ [0]).
+          (name ++ 0 :: (d1 ++ 46 :: d2 ++ 46 :: d3 ++ labels) ++ repeat 0 pad).
 
 Definition sver_header_valid (x y pcpu vcpu buf : Z) : Prop :=
   is_byte x /\ is_byte y /\ is_byte pcpu /\ is_byte vcpu /\ 0 <= buf < 65536.
